@@ -115,7 +115,9 @@ def swan_roundtrip(env, layout, nt, ntime, gz, special, dirs, dimorder="freq_dir
     fn = os.path.join(tmp, "roundtrip.spec" + (".gz" if gz else ""))
     try:
         with env.stubs(lambda: TL.text_layer(*_swan_modules())):
-            ds.spec.to_swan(fn, ntime=ntime)
+            written = ds
+            ds = ds.copy(deep=True)      # the reference is a snapshot taken before writing (a writer that edits its input must not hide behind it)
+            written.spec.to_swan(fn, ntime=ntime)
             out = read_swan(fn, as_site=(L["kind"] == "site"))
             o = out.efth
             env.claim(np.array_equal(out.time.values.astype("datetime64[s]"), ds.time.values.astype("datetime64[s]")), "times round-trip", {"got": [str(t) for t in out.time.values]})
@@ -181,7 +183,9 @@ def ww3_roundtrip(env):
     f = np.array([0.05, 0.1, 0.2])
     d = np.array([90.0, 0.0, 270.0, 180.0])
     vals = env.array("e", (2, 2, len(f), len(d)), lo=0.0, hi=100.0)
-    ds = xr.Dataset({"efth": (("time", "site", "freq", "dir"), vals), "lon": (("site",), [150.0, 151.0]), "lat": (("site",), [-30.0, -31.0])},
+    given = vals
+    vals = np.array(vals, copy=True)      # reference snapshot; the writer gets its own buffer
+    ds = xr.Dataset({"efth": (("time", "site", "freq", "dir"), given), "lon": (("site",), [150.0, 151.0]), "lat": (("site",), [-30.0, -31.0])},
                     coords={"time": _times(2), "site": [1, 2], "freq": f, "dir": d})
     captured = {}
     orig = xr.Dataset.to_netcdf
@@ -250,10 +254,12 @@ def funwave_roundtrip(env, dirs):
     d = np.array(dirs)
     vals = env.array("e", (len(f), len(d)), lo=0.0, hi=50.0)
     env.assume(AND(*[v >= 0.001 for v in vals.ravel()]))
+    given = vals
+    vals = np.array(vals, copy=True)      # reference snapshot; the writer gets its own buffer
     # tp needs an interior peak: make the middle frequency the largest in the direction-integrated spectrum
     e1 = [sum(vals[i, :]) for i in range(len(f))]
     env.assume(AND(e1[1] > e1[0], e1[1] > e1[2]))
-    ds = xr.Dataset({"efth": (("freq", "dir"), vals)}, coords={"freq": f, "dir": d})
+    ds = xr.Dataset({"efth": (("freq", "dir"), given)}, coords={"freq": f, "dir": d})
     tmp = tempfile.mkdtemp(prefix="vt-c11-", dir=os.environ.get("VT_SCRATCH") or None)
     fn = os.path.join(tmp, "spectrum.txt")
     try:
